@@ -61,3 +61,41 @@ package gcs
 //@ func gcs.(*Filter).MatchAny
 //@   requires f.p <= 32
 //@   modifies nothing
+
+//@ func gcs.(*Filter).NBytes
+//@   ensures err == nil ==> len(result0) == wire.varintsize(u64(f.n)) + len(f.filterData)
+//@   modifies nothing
+//@   assert after WriteVarInt#1: $arg2 == u64(f.n)
+//@   assert after Write#1: sameobj($arg1, f.filterData) && $arg1.off == f.filterData.off && len($arg1) == len(f.filterData)
+
+//@ func gcs.(*Filter).NPBytes
+//@   ensures err == nil ==> len(result0) == wire.varintsize(u64(f.n)) + 1 + len(f.filterData)
+//@   modifies nothing
+//@   assert after WriteVarInt#1: $arg2 == u64(f.n)
+//@   assert after WriteByte#1: $arg1 == f.p && *$arg0 == wire.varintsize(u64(f.n)) + 1
+//@   assert after Write#1: sameobj($arg1, f.filterData) && $arg1.off == f.filterData.off && len($arg1) == len(f.filterData) && *$arg0 == wire.varintsize(u64(f.n)) + 1 + len(f.filterData)
+
+//@ func gcs.FromNBytes
+//@   ensures err == nil ==> result0 != nil && fresh(result0) && result0.p == P && P <= 32 && result0.modulusNP == u64(result0.n) * M
+//@   ensures err == nil ==> len(result0.filterData) == len(d) - wire.varintsize(u64(result0.n)) && fresh(result0.filterData)
+//@   modifies nothing
+//@   assert after FromBytes#1: $arg0 == u32($ret0.n) || true
+
+//@ func gcs.BuildGCSFilter
+//@   ensures len(data) >= 4294967296 ==> err == ErrNTooBig && result0 == nil
+//@   ensures len(data) < 4294967296 && P > 32 ==> err == ErrPTooBig && result0 == nil
+//@   ensures len(data) < 4294967296 && P <= 32 ==> err == nil && result0 != nil && fresh(result0) && int(result0.n) == len(data) && result0.p == P && result0.modulusNP == u64(result0.n) * M
+//@   ensures err == nil && len(data) == 0 ==> len(result0.filterData) == 0
+//@   alloc len(data) + 64
+//@   loop 1 invariant len(values) == $i && cap(values) == len(data) && fresh(values) && b != nil && fresh(b) && *b == 0
+//@   loop 2 invariant b != nil && fresh(b) && f.p == P
+//@   loop 2 invariant lastValue == gcs.prev(values, $i) && *b == gcs.bits(values, $i, P)
+//@   loop 3 invariant b != nil && fresh(b)
+//@   loop 3 invariant *b + int(value) == gcs.bits(values, $i2, P) + int((values[$i2] - gcs.prev(values, $i2)) >> u64(P))
+//@   loop 3 decreases int(value)
+//@   assert after Sum64#1: sameobj($arg0, data[$i1]) && len($arg0) == len(data[$i1]) && $arg0.off == data[$i1].off
+//@   assert after fastReduction#1: $arg1 == (u64(u32(len(data))) * M) >> 32 && $arg2 == u64(u32(u64(u32(len(data))) * M))
+//@   assert after WriteBit#1: $arg1 == true
+//@   assert after WriteBit#2: $arg1 == false && value == 0
+//@   assert after WriteBits#1: $arg1 == (values[$i2] - gcs.prev(values, $i2)) & ((u64(1) << u64(P)) - 1) && $arg2 == int(P)
+//@   assert after WriteBits#1: *$arg0 == gcs.bits(values, $i2 + 1, P)
